@@ -20,6 +20,7 @@ import (
 
 	"github.com/sirupsen/logrus"
 
+	"hop.computer/hop/certs"
 	"hop.computer/hop/keys"
 	"hop.computer/hop/transport"
 	"verif/harness/hopkit"
@@ -28,7 +29,8 @@ import (
 )
 
 var cfgs = []string{"one", "vhosts", "hidden1", "hidden2"}
-var states = []string{"idle", "pending", "established", "closed", "client-wSH", "client-wSA", "client-wHP", "client-open"}
+var states = []string{"idle", "pending", "established", "closed", "client-wSH", "client-wSA", "client-wHP", "client-open",
+	"env-sni", "env-certs", "env-srvcerts"}
 
 var (
 	pki       *hopkit.PKI
@@ -245,9 +247,150 @@ func errs(e error) string {
 	return e.Error()
 }
 
+// hostileCerts: byte strings presented as certificates inside a correctly encrypted and authenticated
+// handshake message: every truncation of a real certificate, field-boundary cuts, random bytes, length extremes.
+func hostileCerts(real []byte, rng *rand.Rand) (out [][]byte) {
+	for l := 0; l <= len(real); l++ {
+		out = append(out, real[:l])
+	}
+	for k := 0; k < 40; k++ {
+		m := append([]byte(nil), real...)
+		m[rng.Intn(len(m))] ^= byte(1 << uint(rng.Intn(8)))
+		out = append(out, m)
+	}
+	for _, l := range []int{1, 2, 3, 4, 64, 200, 1000, 30000} {
+		b := make([]byte, l)
+		rng.Read(b)
+		out = append(out, b)
+	}
+	out = append(out, append(append([]byte(nil), real...), make([]byte, 50)...))
+	return
+}
+
+// envelope: protocol-following hostile peers.  The messages are well-formed, encrypted and authenticated; their
+// CONTENT (server name, certificate bytes) is hostile.  Nothing here needs a key the adversary does not own.
+func envelope(cfg, state string, rng *rand.Rand, w *rec.W) {
+	wd := hopkit.NewWorld()
+	nvh := 1
+	if cfg == "vhosts" || cfg == "hidden2" {
+		nvh = 3
+	}
+	k := 0
+	logCase := func(class string, n int, hexs string) {
+		w.Ev("case", "k", k, "class", class, "len", n, "src", "-", "hex", hexs)
+		w.Flush()
+		k++
+	}
+	switch state {
+	case "env-sni": // ClientAck carrying any server name: every type byte, label lengths 0/1/252, labels aimed at the patterns
+		if hiddenCfg(cfg) {
+			w.Ev("skip", "why", "no server name in the hidden handshake")
+			return
+		}
+		s := wd.NewServer(sa, srvOpt(cfg))
+		w.Ev("group", "cfg", cfg, "state", state, "genuine", 0)
+		labels := [][]byte{nil, {}, []byte("a"), []byte("a.example"), []byte("x.b.example"), []byte(".b.example"), []byte("*"), []byte("**"),
+			[]byte("zzz"), make([]byte, 252), []byte("a.example\x00"), {0xff, 0xfe}}
+		for t := 0; t < 256; t++ {
+			for li, lab := range labels {
+				if t > 8 && li > 3 && t%16 != 0 {
+					continue
+				}
+				o := cliOpt(cfg, 0)
+				o.Verify.Name = certsName(byte(t), lab)
+				logCase(fmt.Sprintf("envelope:sni type=%d label#%d", t, li), len(lab), hex.EncodeToString(lab[:min(len(lab), 16)]))
+				c := wd.NewClient(fresh(), sa, o)
+				_ = wd.RunHandshake(c, s) // may fail; must not crash or wedge
+				c.T.Close()
+				if err := s.EP.WaitIdle(2 * time.Second); err != nil {
+					w.Ev("probe", "k", k, "class", "envelope:sni", "session", "ok", "handshake", "server no longer reads datagrams")
+					return
+				}
+				for {
+					if _, err := s.T.AcceptTimeout(200 * time.Microsecond); err != nil {
+						break
+					}
+				}
+				if k%60 == 0 {
+					w.Ev("probe", "k", k, "class", "envelope:sni", "session", "ok", "handshake", errs(probeHandshake(cfg, wd, s, k/60%nvh)))
+				}
+			}
+		}
+		w.Ev("probe", "k", k, "class", "envelope:sni", "session", "ok", "handshake", errs(probeHandshake(cfg, wd, s, 0)))
+	case "env-certs": // ClientAuth / hidden request carrying hostile certificate bytes
+		s := wd.NewServer(sa, srvOpt(cfg))
+		w.Ev("group", "cfg", cfg, "state", state, "genuine", 0)
+		realLeaf, _ := cid.Leaf.Marshal()
+		realInter, _ := ids[0].Inter.Marshal()
+		hc := hostileCerts(realLeaf, rng)
+		for i, leaf := range hc {
+			inter := []byte(nil)
+			if i%5 == 1 {
+				inter = hostileCerts(realInter, rng)[rng.Intn(len(realInter))]
+			}
+			if len(leaf) == 0 {
+				continue // the client refuses to send an empty leaf
+			}
+			for _, hidden := range []bool{false, true} {
+				if hidden != hiddenCfg(cfg) && !(hidden && cfg != "hidden1" && cfg != "hidden2") {
+					continue
+				}
+				o := cliOpt(cfg, i%nvh)
+				if hidden {
+					o.ServerKEM = &kems[i%nvh].Public
+				}
+				logCase(fmt.Sprintf("envelope:certs hidden=%v leaflen=%d interlen=%d", hidden, len(leaf), len(inter)), len(leaf), hex.EncodeToString(leaf[:min(len(leaf), 48)]))
+				c := wd.NewClient(fresh(), sa, o)
+				c.T.VerifSetRawCertificates(leaf, inter)
+				_ = wd.RunHandshake(c, s)
+				c.T.Close()
+				if err := s.EP.WaitIdle(2 * time.Second); err != nil {
+					w.Ev("probe", "k", k, "class", fmt.Sprintf("envelope:certs hidden=%v leaflen=%d", hidden, len(leaf)), "session", "ok", "handshake", "server no longer reads datagrams")
+					return
+				}
+				for {
+					if _, err := s.T.AcceptTimeout(200 * time.Microsecond); err != nil {
+						break
+					}
+				}
+			}
+			if i%50 == 49 {
+				w.Ev("probe", "k", k, "class", "envelope:certs", "session", "ok", "handshake", errs(probeHandshake(cfg, wd, s, i/50%nvh)))
+			}
+		}
+		w.Ev("probe", "k", k, "class", "envelope:certs", "session", "ok", "handshake", errs(probeHandshake(cfg, wd, s, 0)))
+	case "env-srvcerts": // a hostile SERVER presents hostile certificate bytes to an honest client
+		w.Ev("group", "cfg", cfg, "state", state, "genuine", 0)
+		realLeaf, _ := ids[0].Leaf.Marshal()
+		honest := wd.NewServer(simwire.Addr("10.0.0.9", 77), srvOpt(cfg))
+		for i, leaf := range hostileCerts(realLeaf, rng) {
+			raw := leaf
+			mal := wd.NewServer(&net.UDPAddr{IP: net.IPv4(10, 8, byte(i>>8), byte(i)), Port: 77}, hopkit.SrvOpt{Ident: ids[0], KEM: kems[0], Hidden: hiddenCfg(cfg), RawLeaf: &raw})
+			logCase(fmt.Sprintf("envelope:srvcerts leaflen=%d", len(leaf)), len(leaf), hex.EncodeToString(leaf[:min(len(leaf), 48)]))
+			c := wd.NewClient(fresh(), mal.EP.Addr(), cliOpt(cfg, 0))
+			_ = wd.RunHandshake(c, mal)
+			c.T.Close()
+			mal.T.Close()
+			if i%50 == 49 { // the client side of the process is still able to complete an honest handshake
+				c2 := wd.NewClient(fresh(), honest.EP.Addr(), cliOpt(cfg, 0))
+				err := wd.RunHandshake(c2, honest)
+				c2.T.Close()
+				w.Ev("probe", "k", k, "class", "envelope:srvcerts", "session", "ok", "handshake", errs(err))
+			}
+		}
+	}
+	w.Ev("done", "cases", k)
+}
+
+func certsName(t byte, label []byte) certs.Name { return certs.Name{Type: certs.IDType(t), Label: label} }
+
 func child(cfg, state string, seed int64, thorough bool, out string) {
 	w := rec.Must(out)
 	defer w.Close()
+	if strings.HasPrefix(state, "env-") {
+		envelope(cfg, state, rand.New(rand.NewSource(seed)), w)
+		return
+	}
 	flush := func() { w.Close(); w2, _ := os.OpenFile(out, os.O_APPEND|os.O_WRONLY, 0644); _ = w2 }
 	_ = flush
 	rng := rand.New(rand.NewSource(seed))
@@ -425,6 +568,7 @@ func main() {
 	}
 	cfg, state := os.Args[2], os.Args[3]
 	seed, _ := strconv.ParseInt(os.Args[4], 10, 64)
+	hopkit.StepTimeout = 3 * time.Second
 	pki = hopkit.NewPKI()
 	cid = pki.Issue("selfsigned", "client")
 	ids = []*hopkit.Ident{pki.Issue("valid", "a.example"), pki.Issue("valid", "x.b.example"), pki.Issue("valid", "c.example")}
